@@ -229,6 +229,11 @@ fn run_lc(c: &mut Ctx) {
     if (a - b).norm() < 1e-6 * circle.r() {
         return;
     }
+    // the carrier line of a tangent segment has to be defined to better than the library's 1e-10
+    // tangency band: two points a fraction of a radius apart far from the origin do not define it
+    if name == "tangent" && (a - b).norm() < 0.1 * circle.r() {
+        return;
+    }
     c.family(&format!("line-circle/{name}"));
     c.set_case(json!({"circle": [circle.x(), circle.y(), circle.r()], "a": [a.x, a.y], "b": [b.x, b.y], "configuration": name}));
     let scale = circle.r() + circle.center.coords.norm() + a.coords.norm() + b.coords.norm();
